@@ -488,6 +488,13 @@ impl Mach {
                     if self.low_capacity(2 * used + 2 * model.n as usize + 8, ctx) {
                         return true;
                     }
+                    // ZBDD diagrams grow much more during level swaps (every function mentions
+                    // every variable above its support): with functions alive, reorder only when
+                    // the capacity is ample (running out aborts: known finding F08)
+                    let holds_functions = self.regs.iter().any(|r| r.is_some()) || !self.foreign.is_empty();
+                    if KIND == Kind::Zbdd && (holds_functions || used > model.n as usize) && self.low_capacity(4096, ctx) {
+                        return true;
+                    }
                 }
                 let (rc0, gc0) = self.mref.with_manager_shared(|m| (m.reorder_count(), m.gc_count()));
                 let observed: Vec<u32> = self.mref.with_manager_exclusive(|m| {
